@@ -857,6 +857,28 @@ func (b *builder) sharedFail(i int) *scenario {
 	return sc
 }
 
+// manyTopics: a Writer without a topic of its own, one goroutine, calls of 13 to 40 messages spread over two or three
+// topics: within every topic-partition the messages of a call must be produced in the order of the call's slice, also
+// when the call is long.
+func (b *builder) manyTopics(i int) *scenario {
+	r := b.r
+	sc := &scenario{name: "manytopics" + strconv.Itoa(i), bs: []int{3, 100, 7, 16}[i%4], bb: 1 << 20, ma: 2, async: i%3 == 2, compl: i%2 == 0, wtopic: "",
+		timeout: 2 * time.Millisecond, nparts: map[string]int{"a": 1, "b": 1 + i%2, "c": 1}, faults: map[tpKey][]fault{}, closeAt: -1}
+	topics := []string{"a", "b", "c"}[:2+i%2]
+	var calls []callSpec
+	for c := 0; c < 2; c++ {
+		b.nextC++
+		cs := callSpec{id: b.nextC}
+		for k := 0; k < 13+r.Intn(28); k++ {
+			t := topics[r.Intn(len(topics))]
+			cs.msgs = append(cs.msgs, b.mkMsg(40+r.Intn(10), t, r.Intn(sc.nparts[t]), false))
+		}
+		calls = append(calls, cs)
+	}
+	sc.callers = [][]callSpec{calls}
+	return sc
+}
+
 // tinyTimeout: BatchTimeout of microseconds with BatchSize 2 and odd message counts, while every batch creation is
 // stalled inside the partition mutex: the linger timer of a batch expires while writeMessages fills and queues it and
 // opens the next batch, so the timer branch of awaitBatch runs for a batch that is no longer attached
@@ -1828,6 +1850,9 @@ func main() {
 	}
 	for i := 0; i < 8*extra && failedScenarios < 3; i++ {
 		run(b.viaNewWriter(i), out)
+	}
+	for i := 0; i < 6*extra && failedScenarios < 3; i++ {
+		run(b.manyTopics(i), out)
 	}
 	for i := 0; i < 2+extra/5 && failedScenarios < 3; i++ {
 		run(b.sharedFail(i), out)
